@@ -47,6 +47,10 @@ def run(ctx):
   from . import C07
   C07.sharded_record_conversion(ctx)
   graft_accumulator_precision(ctx)
+  # "from the start-preconditioning step on": the step compared against start_preconditioning_step is the incoming
+  # state's count in all three modes (a post-increment count switches from the graft step one update early)
+  from . import C04
+  C04.ds_step_threading(ctx)
   tearfree_maybe_graft(ctx)
   tearfree_dispatch(ctx)
   tearfree_norm_optimisers(ctx)
